@@ -161,6 +161,19 @@ CLAIMED["C12"] = dict(
     note=TB + " Modelled, not verified: exception propagation inside a process, termination of children by the OS, closing of output files by cli.main; dnaio's parser decides what is an error.",
 )
 
+CLAIMED["C18"] = dict(
+    text="Theorems (coq/Properties/C18.v) on a model of parser.py and SingleAdapter.__init__ (Model/Parser.v): the (option, restriction, rightmost) -> adapter class table is the documented one "
+    "(C18_class_table); ^CORE, X..XCORE, CORE$, COREX..X and plain CORE yield the documented restriction and the bare core, two restrictions on one end are rejected (C18_notation_*, "
+    "C18_two_restrictions_rejected); parameter precedence adapter-level over file-level over global for every parameter (C18_precedence); an error parameter >= 1 is divided by the number "
+    "of non-N bases and every other field of the adapter description is as documented (C18_description); which parts of a linked adapter are required (C18_linked_required). "
+    "PARTIAL: a full round trip parse(show(ast)) = meaning(ast) over the whole grammar (names, brace expansion, parameter spellings, file: variants) is not a theorem; it is covered by the "
+    "correspondence of the extracted parser model with make_adapters_from_specifications on strings printed from random ASTs of the documented grammar plus the documented-invalid strings "
+    "(CLI exit status 2), and by a documentation-table oracle applied to the AST.",
+    technique="Coq proof (case analysis / induction over the specification string) + extracted-model differential correspondence with make_adapters_from_specifications; documentation-table oracle",
+    design="6/C18",
+    note=TB + " FASTA reading for file: specifications is dnaio's; rates are compared as exact fractions of the decimal literal.",
+)
+
 NOT_YET = {}
 
 
